@@ -307,6 +307,23 @@ fn exec(regs: &mut Regs, cx: &mut Cx, op: &Op) -> (String, Vec<usize>, Vec<usize
                 }
                 #[cfg(not(feature = "serde"))]
                 SetOp::Serde(dst) => ("[unsupported]".into(), vec![], vec![i, *dst]),
+                SetOp::ExtendFrom(o) if *o != i => {
+                    let j = *o;
+                    let (dst, src) = if i < j {
+                        let (l, r) = regs.s.split_at_mut(j);
+                        (&mut l[i], &mut r[0])
+                    } else {
+                        let (l, r) = regs.s.split_at_mut(i);
+                        (&mut r[0], &mut l[j])
+                    };
+                    // the source is moved out; a fresh `new()` of its capacity stays in its register
+                    with_set!(dst, d => with_set!(src, s => {
+                        let owned = std::mem::replace(&mut s.c, micromap::Set::new());
+                        ops::set_extend_from(&mut d.c, owned)
+                    }));
+                    ("()".into(), vec![], vec![i, j])
+                }
+                SetOp::ExtendFrom(_) => ("bad-op".into(), vec![], vec![i]),
                 SetOp::Sub(o, dst) => {
                     let a = &regs.s[i];
                     let b = &regs.s[*o];
@@ -370,7 +387,7 @@ fn touched(op: &Op) -> (Vec<usize>, Vec<usize>) {
         Op::Map(i, _) => (vec![*i], vec![]),
         Op::Set(i, SetOp::CloneTo(d)) | Op::Set(i, SetOp::CloneFrom(d)) => (vec![], vec![*i, *d]),
         Op::UMap(i, _) => (vec![], vec![*i]),
-        Op::Set(i, SetOp::Eq(o))
+        Op::Set(i, SetOp::ExtendFrom(o)) | Op::Set(i, SetOp::Eq(o))
         | Op::Set(i, SetOp::Alg(_, o, _))
         | Op::Set(i, SetOp::IsSubset(o))
         | Op::Set(i, SetOp::IsSuperset(o))
